@@ -121,6 +121,9 @@ static struct {
   uint64_t ticks_delivered, ticks_read;
   void* exit_sp;
   void* last_pc;
+  struct { uintptr_t lo, hi; int owner; const char* what; } owned[32];
+  int n_owned;
+  uintptr_t owned_min, owned_max;
   int exit_status;
   int inproc;
   uint64_t tso_max_age;
@@ -920,6 +923,29 @@ static inline void shadow_check(uintptr_t a, int size, int is_write) {
   }
 }
 
+static void owner_check(uintptr_t a) {
+  for (int i = 0; i < vs.n_owned; i++)
+    if (a >= vs.owned[i].lo && a < vs.owned[i].hi) {
+      if (vs.owned[i].owner < 0) vs.owned[i].owner = vs.cur->id;
+      else if (vs.owned[i].owner != vs.cur->id) {
+        vs.in_rt++;
+        vs_violation("owner_only_write", "%s (%p) is written by vthread %d, all earlier writes came from vthread %d: a field only its owner may write, pc %p",
+                     vs.owned[i].what, (void*)a, vs.cur->id, vs.owned[i].owner, vs.last_pc);
+      }
+      return;
+    }
+}
+void vs_owner_only(const void* p, size_t n, const char* what) {
+  if (!ACTIVE || vs.n_owned >= 32) return;
+  uintptr_t lo = (uintptr_t)p, hi = lo + n;
+  vs.owned[vs.n_owned].lo = lo;
+  vs.owned[vs.n_owned].hi = hi;
+  vs.owned[vs.n_owned].owner = -1;
+  vs.owned[vs.n_owned].what = what;
+  if (!vs.n_owned || lo < vs.owned_min) vs.owned_min = lo;
+  if (!vs.n_owned || hi > vs.owned_max) vs.owned_max = hi;
+  vs.n_owned++;
+}
 static inline void sched_point(uintptr_t a, int size, int is_write) {
   if (!ACTIVE || vs.in_rt) return;
   vthread_t* t = vs.cur;
@@ -943,6 +969,7 @@ static inline void sched_point(uintptr_t a, int size, int is_write) {
   // the heap check comes last: whatever other threads did while this one was switched out at this very point
   // (e.g. freed the object) is what the access that follows the hook will meet
   vs.last_pc = my_pc;
+  if (is_write && vs.n_owned && a >= vs.owned_min && a < vs.owned_max) owner_check(a);
   if (size) shadow_check(a, size, is_write);
 }
 
